@@ -53,7 +53,7 @@ def run_entry(e, base):
             except SyntaxError as ex:
                 return e, 'STALE', f'mutant does not compile: {ex}'
             open(path, 'w', encoding='utf-8').write(text)
-        env = dict(os.environ, VERIF_REPO=work, VERIF_OUT=work)
+        env = dict(os.environ, VERIF_REPO=work, VERIF_OUT=work, VERIF_NO_SELFTEST='1')
         p = subprocess.run([os.path.join(VERIF, 'check'), e['property'], '--tier', e.get('tier', 'quick')],
                            capture_output=True, text=True, env=env, timeout=600)
         out = p.stdout + p.stderr
@@ -74,21 +74,33 @@ def _tail(out: str) -> str:
     return ' | '.join(lines[:4]).replace('VIOLATION', 'V10LATION')
 
 
-def main(argv) -> int:
-    props = [a.upper() for a in argv if not a.startswith('-')]
+def run_corpus(props=None) -> dict:
     corpus = load_corpus(props or None)
     base = tempfile.mkdtemp(prefix='verif_selftest_')
     bad = 0
+    lines = []
+    counts = {'mutants': 0, 'detected': 0, 'twins': 0, 'silent': 0}
     try:
         with cf.ThreadPoolExecutor(max_workers=int(os.environ.get('VERIF_JOBS', '16'))) as ex:
             for e, verdict, info in ex.map(lambda x: run_entry(x, base), corpus):
-                print(f"SELFTEST {e['kind']}={e['property']}/{e['id']} {verdict} {info[:400]}")
+                lines.append(f"SELFTEST {e['kind']}={e['property']}/{e['id']} {verdict} {info[:300]}")
+                counts['mutants' if e['kind'] == 'mutant' else 'twins'] += 1
+                if verdict in ('detected', 'silent'):
+                    counts[verdict] += 1
                 if verdict in ('MISSED', 'FALSE-ALARM', 'STALE'):
                     bad += 1
     finally:
         shutil.rmtree(base, ignore_errors=True)
-    print(f'SELFTEST total={len(corpus)} bad={bad}')
-    return 1 if bad else 0
+    lines.append(f'SELFTEST total={len(corpus)} bad={bad}')
+    return {'total': len(corpus), 'bad': bad, **counts, 'lines': lines}
+
+
+def main(argv) -> int:
+    props = [a.upper() for a in argv if not a.startswith('-')]
+    res = run_corpus(props)
+    for ln in res['lines']:
+        print(ln)
+    return 1 if res['bad'] else 0
 
 
 if __name__ == '__main__':
